@@ -281,6 +281,11 @@ def _candidates(case, simplify):
         elif isinstance(value, str):
             if isinstance(key, str) and key in simplify:
                 target = simplify[key]
+                if target == "nullable":
+                    yield _replace(case, path, lambda v: None)
+                    continue
+                if target == "int":
+                    continue
                 if callable(target):
                     target = target(value)
                 if target is not None and value != target:
